@@ -335,8 +335,16 @@ func c20nilQueries() string {
 
 func c20(c *hx.Ctx) int {
 	depth := 4
+	// the state set lives in one process: the thorough tier goes one level deeper and stops (with
+	// exhaustive:false and the deepest completed level reported) at a fixed number of states rather than
+	// at whatever the machine's memory allows
+	maxStates := 1 << 30
 	if !c.Quick() {
 		depth = 6
+		maxStates = 4000000
+		if c.Budget == 0 {
+			c.Budget = 1500 * second
+		}
 	}
 	rep := hx.NewReport()
 	ops := c20ops()
@@ -348,17 +356,17 @@ func c20(c *hx.Ctx) int {
 	}
 	seen := map[string]bool{}
 	w0, m0 := c20newWorld()
-	seen[hx.JSON(m0)+w0.hidden(m0)] = true
+	seen[hx.Hash(hx.JSON(m0)+w0.hidden(m0))] = true
 	frontier := []node{{nil}}
 	states, transitions := 1, 0
 	outcomes := hx.NewSetAdder()
-	maxDepth := 0
+	maxDepth, fullDepth := 0, 0
 	var sample []string
 	sampleDepth := 0
 	for d := 1; d <= depth && len(frontier) > 0; d++ {
 		var next []node
 		for _, nd := range frontier {
-			if c.Expired() {
+			if c.Expired() || states > maxStates {
 				rep.Exhaustive = false
 				break
 			}
@@ -400,7 +408,7 @@ func c20(c *hx.Ctx) int {
 					})
 					continue
 				}
-				key := hx.JSON(m) + w.hidden(m)
+				key := hx.Hash(hx.JSON(m) + w.hidden(m))
 				outcomes.Add("slotcontents", hx.JSON(m[op.A]))
 				if !seen[key] {
 					seen[key] = true
@@ -422,6 +430,9 @@ func c20(c *hx.Ctx) int {
 			}
 		}
 		frontier = next
+		if rep.Exhaustive {
+			fullDepth = d
+		}
 		if len(rep.Violations) > 0 {
 			// deeper failures are consequences of the shortest ones: stop at the first failing depth
 			rep.Exhaustive = false
@@ -433,7 +444,7 @@ func c20(c *hx.Ctx) int {
 	}
 	cov := map[string]any{
 		"states": states, "transitions": transitions, "traces_validated_against_impl": transitions,
-		"depth_completed": maxDepth, "depth_bound": depth, "operations_in_alphabet": len(ops),
+		"depth_completed": fullDepth, "deepest_state_seen": maxDepth, "depth_bound": depth, "state_cap": maxStates, "operations_in_alphabet": len(ops),
 		"distinct_slot_contents": outcomes.Len("slotcontents"),
 		"rule": "BFS over op sequences on 3 result slots (plain, plain, pooled); state = model contents + aliasing fingerprint of the real objects; every transition executed on the real Result type and compared with an ordered-set model",
 	}
